@@ -14,6 +14,23 @@ only (a) the configuration-changing command lines on the control transport, deco
 server-side grammar, against the lines Tor reported, (b) the reference store afterwards, (c) the
 connectTCP / connectUNIX call the returned endpoint makes on the fake reactor.
 
+Case (driver "session"): the state the TorConfig / control connection is in when a port is chosen
+  {"store": {"value": ..., "alt": [], "default": [SocksPort lines of GETINFO config/defaults] (optional)},
+   "echo": bool,
+   "boot": "alone" | "with_listener",    with_listener: TorConfig.from_protocol() and another add_event_listener()
+                                          are both started before Tor answered the first SETEVENTS
+   "steps": [{"op": "request", "route": "cfg_create" | "cfg_sync",
+              "pick": {"kind": "none"} | {"kind": "present", "i": k, "full": bool} | {"kind": "spec", "spec": line}},
+             {"op": "refused", "req": "unix:/nonexistent/..."}     a request the reference Tor refuses with 553
+             {"op": "edit", "what": "socks_append" | "nickname" | "log_append", "v": ...}   unsaved application edit
+             {"op": "save"}                                         the application calls cfg.save()
+             {"op": "foreign", "lines": [...], "keep": bool, "window": "idle" | "save_in_flight"}
+                        another controller sets SocksPort (kept lines + new ones); Tor announces CONF_CHANGED if we
+                        are subscribed; save_in_flight: the event reaches us while one of our SETCONFs is unanswered
+             {"op": "overlap", "picks": [pick, pick]}]}             two create_socks_endpoint() calls, Tor's answer
+                                                                    to the first SETCONF held until both were made
+Picks are resolved against the store as it is when the step runs ("present" modulo the certainly-usable entries).
+
 Case (driver "fallback"):
   {"host": "example.com", "port": 80,
    "outcomes": [{"k": "refused" | "timeout" | "tcp_timeout" | "noroute" | "connect_error" | "bind" |
@@ -45,13 +62,24 @@ RULE = ("Part A (driver 'choose'): Hypothesis-generated SOCKSPort stores in a re
         "Tor.dns_resolve, TorClientEndpoint.from_connection + connect, TorConfig.create_socks_endpoint, "
         "TorConfig.socks_endpoint) x repeat-the-call x CONF_CHANGED echo; plus 24 fixed scenarios and, in the "
         "thorough tier, the full grid of 22 fixed stores x every compatible request x every route. "
+        "Part A2 (driver 'session'): the same oracle over TorConfig histories of 1..6 steps - requests through "
+        "create_socks_endpoint / socks_endpoint (picks resolved against the store of the moment), requests the "
+        "reference Tor refuses (553), unsaved application edits (SocksPort.append, Nickname, Log.append), "
+        "application saves, SocksPort changes by another controller announced as CONF_CHANGED while we are idle or "
+        "while one of our SETCONFs is unanswered, two overlapping create_socks_endpoint() calls with Tor's first "
+        "answer held back - over the same stores plus 'SocksPort unset, config/defaults lists 1..2 SocksPort lines "
+        "with option words', with TorConfig bootstrapped alone or together with another event subscription before "
+        "the first SETEVENTS is answered; the reference Tor sends CONF_CHANGED only to a controller whose last "
+        "SETEVENTS named it; 12 fixed sessions. "
         "Part B (driver 'fallback'): TorClientEndpoint without a SOCKS endpoint, connect() on a fake reactor whose "
         "connectTCP outcome per attempt is drawn from connection errors (refused, timeout, no route, bind, generic), "
         "other exceptions (raised by connectTCP, or reported asynchronously), SOCKS-level failures after TCP "
         "success (error reply 1..8, no acceptable method), early close, success; all 144 two-step outcome "
         "sequences are also enumerated. "
         "Non-trivial (A) = a port had to be added while Tor already had at least one entry carrying option words "
-        "and the single SETCONF was judged against Tor's lines; (B) = at least two attempts were made. "
+        "and the single SETCONF was judged against Tor's lines; (A2) = a request or an overlapping pair was judged "
+        "after at least one state-making step (refusal, unsaved edit, foreign change, overlap, shared bootstrap); "
+        "(B) = at least two attempts were made. "
         "Distinct = distinct canonical JSON of the case.")
 ASSUMPTIONS = [
     "'usable' entry: a TCP port 1..65535 on an IPv4 address or an unquoted unix: path must be used when it "
@@ -82,6 +110,25 @@ ASSUMPTIONS = [
     "several __SocksPort lines are only generated for the routes that read __SocksPort themselves "
     "(_create_socks_endpoint family); how TorConfig's view shapes them is C11's subject",
     "commands that change configuration are SETCONF, RESETCONF and LOADCONF; GETCONF/GETINFO/SETEVENTS are free",
+    "sessions: a request for a configured port sends no SETCONF at all, whatever is pending in the TorConfig; the "
+    "SETCONF that adds a port may also carry what the application left unsaved (create_socks_endpoint documents "
+    "that it may call save()): other options the application edited, and SocksPort lines the application appended "
+    "itself - Tor's own lines must still be there verbatim and in order, plus the one new entry; only appends of "
+    "fresh lines are generated as unsaved SocksPort edits (removals/replacements would make 'existing' ambiguous)",
+    "sessions: with no port named, an entry the application appended to cfg.SocksPort without saving may be the one "
+    "picked; a request naming such an unsaved entry is ambiguous and skipped (counted)",
+    "sessions: a line Tor refused in an earlier request is neither 'existing' nor 'the new one' in a later SETCONF; "
+    "the reference Tor refuses (553) every SETCONF listing a unix socket below /nonexistent/, consistently",
+    "sessions: SocksPort at a config/defaults value is only used with the TorConfig routes (the only ones that read "
+    "config/defaults); the default lines are then the entries 'as Tor reported' them; _create_socks_endpoint & co. "
+    "see nothing reported and fall under the unset/unset latitude",
+    "sessions: a foreign SocksPort change is not generated while the application has unsaved SocksPort edits or the "
+    "store is __SocksPort-based (what the event should do to them is not stated), nor inside the window in which "
+    "Tor has not yet read a SocksPort-carrying SETCONF of ours (an inherent race); it always leaves >=1 line "
+    "(tor announces an emptied port option under its Virtual name - C11's exclusion)",
+    "sessions: overlapping requests may be served by one SETCONF each or by fewer (coalesced); every SETCONF is "
+    "compared with the lines Tor held when it read that command, and must add at least one of the wanted entries; "
+    "afterwards Tor holds its old lines plus each wanted entry once and both callers get their endpoint",
     "Part B: the well-known ports are 9050 then 9150 on a loopback host (the statement and "
     "TorClientEndpoint.socks_ports_to_try); a 'connection error' is twisted.internet.error.ConnectError or a "
     "subclass; a TCP connection that is closed before any SOCKS reply may count as a connection error or not "
@@ -197,38 +244,74 @@ def grid_cases():
 
 # =========================================================================== Part A: driver
 
+REFUSED_PREFIX = "unix:/nonexistent/"     # the reference Tor cannot bind a socket below this directory (553)
+
+
 class _World(object):
     def __init__(self, case):
         txtorcon, endpoints, fn = _txtorcon()
         self.txtorcon, self.endpoints, self.create = txtorcon, endpoints, fn
         store = case["store"]
         value, alt = store.get("value"), list(store.get("alt") or [])
+        default = store.get("default") or None
+        route = case["route"]
         if value is not None and alt:
             raise HarnessError("case sets SocksPort and __SocksPort at once")
-        for ln in (value or []) + alt:
+        if default and (value is not None or alt or not route.startswith("cfg_")):
+            raise HarnessError("config/defaults lines for SocksPort are only used with SocksPort unset and the "
+                               "TorConfig routes")
+        for ln in (value or []) + alt + list(default or []):
             try:
                 sp.parse_entry(ln)
             except sp.BadLine as e:
                 raise HarnessError("case holds a line no Tor would report: %s" % e)
+        self.echo = bool(case.get("echo"))
         self.sim = simconf.SimConf([
             simconf.opt("Log", "LineList", value=["notice stdout"]),
-            simconf.opt("SocksPort", "PortLines", value=value, alt=alt or None),
+            simconf.opt("SocksPort", "PortLines", value=value, alt=alt or None, default=default),
             simconf.opt("DNSPort", "PortLines", value=["5353"]),
             simconf.opt("Nickname", "String", default=["Unnamed"]),
-        ], defaults_supported=True, echo=bool(case.get("echo")))
+        ], defaults_supported=True, echo=False)
+        self.subscribed = set()     # events named in the last SETEVENTS the reference Tor read
+        self.before = []            # Tor's SocksPort lines just before each SETCONF/RESETCONF (parallel to sim.setconfs)
 
         def handler(line):
+            verb, _, rest = line.partition(" ")
+            verb = verb.upper()
             if line == "GETINFO net/listeners/socks":
                 return wire.getinfo_reply([("net/listeners/socks", sp.listeners_info(self.lines()))])
+            if verb == "SETEVENTS":
+                self.subscribed = {x.upper() for x in rest.split()}
+                return NotImplemented
+            if verb in ("SETCONF", "RESETCONF"):
+                self.before.append(self.lines())
+                # Tor announces a change only to controllers that asked for CONF_CHANGED
+                self.sim.echo = self.echo and "CONF_CHANGED" in self.subscribed
+                try:
+                    items = wire.parse_kvline(rest)
+                except wire.ParseError:
+                    items = []
+                if any(v is not None and v.startswith(REFUSED_PREFIX) for _, v in items):
+                    self.sim.reject_next(553, "Unable to set option: Failed to bind one of the listener ports.")
             return self.sim.handler(line)
 
         self.pipe, self.srv = bootstrapped_pipe(handler)
         self.reactor = FakeReactor(first_port=FIRST_NEW_PORT)
         self.cfg = None
         self.tor = None
-        route = case["route"]
         if route.startswith("cfg_"):
-            w = Watch(txtorcon.TorConfig.from_protocol(self.pipe.proto))
+            boot = case.get("boot", "alone")
+            if boot == "alone":
+                w = Watch(txtorcon.TorConfig.from_protocol(self.pipe.proto))
+            elif boot == "with_listener":
+                # another subscription is made before Tor has answered TorConfig's SETEVENTS
+                self.pipe.auto = False
+                w = Watch(txtorcon.TorConfig.from_protocol(self.pipe.proto))
+                self.other_events = []
+                Watch(defer.maybeDeferred(self.pipe.proto.add_event_listener, "STREAM", self.other_events.append))
+                self.pipe.auto = True
+            else:
+                raise HarnessError("unknown boot %r" % (boot,))
             self.pipe.pump()
             if not w.succeeded:
                 raise HarnessError("TorConfig bootstrap did not complete: %r" % (w.outcome(),))
@@ -237,10 +320,21 @@ class _World(object):
             self.tor = txtorcon.Tor(self.reactor, self.pipe.proto)
 
     def lines(self):
-        """SocksPort + __SocksPort lines the reference Tor holds now (through its GETCONF answer)."""
+        """The SocksPort lines the reference Tor runs with now: SocksPort + __SocksPort (through its GETCONF
+        answer), or the config/defaults lines while both are unset."""
         rep = self.sim.getconf_reply(["SocksPortLines"])
         texts = [p[1] for p in rep["parts"]] + [rep["final"]]
-        return [t.split("=", 1)[1] for t in texts if "=" in t]
+        return [t.split("=", 1)[1] for t in texts if "=" in t] or list(self.sim.default("SocksPort") or [])
+
+    def foreign_set(self, lines):
+        """Another controller sets SocksPort; returns the CONF_CHANGED bytes Tor sends us (b"" if we did not
+        subscribe)."""
+        reply, changed = self.sim.setconf([("SocksPort", ln) for ln in lines])
+        if reply["code"] != 250:
+            raise HarnessError("the reference Tor refused the foreign SETCONF %r" % (lines,))
+        if not changed or "CONF_CHANGED" not in self.subscribed:
+            return b""
+        return self.sim.conf_changed(["SocksPort"])
 
     def n_connects(self):
         return len(self.reactor.tcp_connects) + len(self.reactor.unix_connects)
@@ -341,7 +435,24 @@ def _target_problem(target, ents, exact):
     return "requested-entry-not-targeted" if exact else "endpoint-targets-unconfigured-address"
 
 
-def _judge_add(res, w, route, lines, ents, expected_new, out, recs, changing, fail_tag):
+def _relist_match(lines, rest, extras_allowed):
+    """Is `rest` Tor's `lines` verbatim and in order, interleaved only with (each at most once) lines from
+    `extras_allowed`?  -> list of the extras used, or None."""
+    left = list(extras_allowed)
+    used, k = [], 0
+    for v in rest:
+        if k < len(lines) and v == lines[k]:
+            k += 1
+        elif v in left:
+            left.remove(v)
+            used.append(v)
+        else:
+            return None
+    return used if k == len(lines) else None
+
+
+def _judge_add(res, w, route, lines, ents, expected_new, out, recs, changing, fail_tag, pending=None):
+    pending = pending or {"add": [], "other": set(), "refused": []}
     if len(changing) != 1 or len(recs) != 1 or recs[0]["verb"] != "SETCONF":
         if not changing:
             if out[0] != "ok" and fail_tag != "route-failed":
@@ -360,18 +471,29 @@ def _judge_add(res, w, route, lines, ents, expected_new, out, recs, changing, fa
         res.bad("setconf-unparsable", repr(rec["line"]))
         return False
     keys = {w.sim.canonical(k) for k, _ in rec["items"]}
-    if not keys <= {"SocksPort", "__SocksPort"}:
-        res.bad("setconf-touches-other-option", repr(rec["line"]))
+    if not keys <= {"SocksPort", "__SocksPort"} | set(pending["other"]):
+        res.bad("setconf-touches-other-option", "%r (the application's unsaved edits: %r)" % (
+            rec["line"], sorted(pending["other"])))
         return False
-    vals = [v for _, v in rec["items"]]
+    if keys - {"SocksPort", "__SocksPort"}:
+        res.label("setconf-also-carries-pending-edit-of-another-option")
+    vals = [v for k, v in rec["items"] if w.sim.canonical(k) in ("SocksPort", "__SocksPort")]
     if any(v is None or v == "" for v in vals):
         res.bad("relisted-entries-differ", "empty/bare SocksPort item in %r" % rec["line"])
+        return False
+    stale = [v for v in vals if v in pending["refused"]]
+    if stale:
+        res.bad("refused-earlier-request-sent-again", "Tor refused %r earlier (and the caller was told so); the "
+                "SETCONF for %r lists it again: %r" % (stale, expected_new, rec["line"]))
         return False
     acceptable = [list(lines)]
     live = [e["line"] for e, _ in ents if e["cls"] != "never"]
     if live != lines:
         acceptable.append(live)
-    cands = [i for i in range(len(vals)) if vals[:i] + vals[i + 1:] in acceptable]
+    cands = [i for i in range(len(vals))
+             if any(_relist_match(a, vals[:i] + vals[i + 1:], pending["add"]) is not None for a in acceptable)]
+    if pending["add"] and cands:
+        res.label("setconf-also-carries-pending-socksport-addition")
     if not cands:
         firsts = [sp.split_entry(ln)[0] for ln in lines]
         naive = [ln.split()[0] for ln in lines]
@@ -379,7 +501,7 @@ def _judge_add(res, w, route, lines, ents, expected_new, out, recs, changing, fa
         detail = "Tor reported %r; SETCONF decoded to %r (%r)" % (lines, vals, rec["line"])
         if "DEFAULT" in vals:
             res.bad("unset-marker-sent-as-socksport", detail)
-        elif route.startswith("cfg_") and lines == ["auto"] and len(vals) == 1:
+        elif route.startswith("cfg_") and lines == ["auto"] and "auto" not in vals:
             # TorConfig shows a lone bare 'auto' line as "unset" (pinned by the repo's tests)
             res.bad("lone-auto-entry-missing-from-config-view", detail)
         elif lines and any(r in (firsts, naive) for r in rests):
@@ -407,7 +529,8 @@ def _judge_add(res, w, route, lines, ents, expected_new, out, recs, changing, fa
         ne = None
     ports, paths = sp._used(lines)
     nk = sp.listener_key(ne) if ne is not None and ne["cls"] == "must" else None
-    if nk is None or (nk[0] == "unix" and nk[1] in paths) or (nk[0] == "tcp" and nk[2] in ports):
+    if nk is None or (nk[0] == "unix" and nk[1] in paths) or (nk[0] == "tcp" and nk[2] in ports) or (
+            expected_new is None and new in pending["add"]):
         res.bad("added-entry-not-a-fresh-usable-port", "%r added to %r" % (new, lines))
         return False
     if not rec["accepted"]:
@@ -435,12 +558,14 @@ def _judge_add(res, w, route, lines, ents, expected_new, out, recs, changing, fa
     return True
 
 
-def _one_call(res, w, case, round_no):
-    """Run the route once against the store as it is now and judge it.  Returns False to stop."""
-    route, req = case["route"], case["req"]
+def _one_call(res, w, route, req, round_no, pending=None, prefix="again:"):
+    """Run the route once against the store as it is now and judge it.  Returns False to stop.
+    `pending`: what the application has changed in the TorConfig without saving - {"add": [SocksPort lines
+    appended], "other": {names of other options}, "refused": [lines Tor refused in an earlier request]}."""
     value0 = w.sim.get("SocksPort")
     lines = w.lines()
-    alt0 = lines[len(value0 or []):]
+    from_defaults = value0 is None and bool(lines) and lines == (w.sim.default("SocksPort") or [])
+    alt0 = [] if from_defaults else lines[len(value0 or []):]
     ents = sp.listeners(lines)
     kind, which = _classify_request(req, ents, lines)
     if kind == "ambiguous":
@@ -464,10 +589,12 @@ def _one_call(res, w, case, round_no):
         mode = "use-exact"
     else:
         mode = "add" if adding else "raise"
-    pre = "" if round_no == 0 else "again:"
+    pre = "" if round_no == 0 else prefix
     res.label(pre + "mode:" + mode, pre + "route:" + route)
     if round_no == 0:
-        if value0 is None:
+        if from_defaults:
+            res.label("store:config-defaults-%s" % ("one" if len(lines) == 1 else "many"))
+        elif value0 is None:
             res.label("store:unset" if not alt0 else ("store:nonpersistent-%s" % ("one" if len(alt0) == 1 else "many")))
         elif lines == ["0"]:
             res.label("store:off")
@@ -485,6 +612,9 @@ def _one_call(res, w, case, round_no):
         t = set()
         for _, k in pairs:
             t |= sp.connect_targets(k)
+        # with no port named, an entry the application appended to cfg.SocksPort itself (unsaved) may be picked
+        for p in (pending or {}).get("add", []):
+            t |= sp.connect_targets(sp.listener_key(sp.parse_entry(p)))
         return t
 
     quoted = any(e["kind"] == "unixq" for e, _ in ents)
@@ -510,6 +640,8 @@ def _one_call(res, w, case, round_no):
             tag = "setconf-although-configured-entry-satisfies-request"
             if mode == "use-exact" and str(req) == which["line"] and which["options"]:
                 tag = "configured-line-with-options-not-recognised-as-present"
+            if pending and (pending["add"] or pending["other"] or pending["refused"]):
+                tag = "request-for-configured-port-flushes-pending-changes"
             res.bad(tag, "Tor has %r, request %r, yet %r was sent" % (lines, req, changing))
             return False
         if mode == "use-exact":
@@ -518,7 +650,7 @@ def _one_call(res, w, case, round_no):
             judge_target(targets_of(musts + optionals))
     elif mode == "optional-or-add":
         if changing:
-            if _judge_add(res, w, route, lines, ents, None, out, recs, changing, _fail_tag(value0, alt0)) \
+            if _judge_add(res, w, route, lines, ents, None, out, recs, changing, _fail_tag(value0, alt0), pending) \
                     and any(e["options"] for e, _ in ents):
                 res.nontrivial = True
             res.label("added:" + ("nothing-configured" if not lines else "only-unusable-or-optional-entries"))
@@ -541,7 +673,7 @@ def _one_call(res, w, case, round_no):
                 allowed |= sp.connect_targets(sp.DEFAULT_SOCKS)
             judge_target(allowed)
     elif mode == "add":
-        if _judge_add(res, w, route, lines, ents, str(req), out, recs, changing, _fail_tag(value0, alt0)) \
+        if _judge_add(res, w, route, lines, ents, str(req), out, recs, changing, _fail_tag(value0, alt0), pending) \
                 and any(e["options"] for e, _ in ents):
             res.nontrivial = True
         res.label("added:requested")
@@ -568,9 +700,412 @@ def drive_choose(case):
     if case["req"] is not None and case["route"] in ADDING_NOREQ:
         raise HarnessError("route %s takes no request" % case["route"])
     w = _World(case)
-    if _one_call(res, w, case, 0) and case.get("again"):
+    if _one_call(res, w, case["route"], case["req"], 0) and case.get("again"):
         res.extra_evals += 1
-        _one_call(res, w, case, 1)
+        _one_call(res, w, case["route"], case["req"], 1)
+    return res
+
+
+# =========================================================================== Part A2: TorConfig sessions
+
+FRESH_SPECS = ["9999", "9998 IsolateDestAddr", "1234", "905", "5", "10.0.0.1:9997 SessionGroup=3", "127.0.0.1:8123",
+               "unix:/tmp/foo/socks", "unix:/tmp/bar/s WorldWritable", "4567 IPv6Traffic PreferIPv6", "21050",
+               "9150", "9050", "9051 OnionTrafficOnly"]
+REFUSED_SPECS = [REFUSED_PREFIX + "dir/socks", REFUSED_PREFIX + "x WorldWritable"]
+
+
+def _picks():
+    return st.one_of(
+        st.just({"kind": "none"}),
+        st.builds(lambda i, f: {"kind": "present", "i": i, "full": f}, st.integers(0, 5), st.booleans()),
+        st.builds(lambda i, f: {"kind": "present", "i": i, "full": f}, st.integers(0, 5), st.booleans()),
+        st.sampled_from(FRESH_SPECS).map(lambda s: {"kind": "spec", "spec": s}),
+        st.sampled_from(FRESH_SPECS).map(lambda s: {"kind": "spec", "spec": s}),
+        st.integers(1, 39999).map(lambda n: {"kind": "spec", "spec": str(n)}),
+    )
+
+
+def _session_steps():
+    request = st.builds(lambda r, p: {"op": "request", "route": r, "pick": p},
+                        st.sampled_from(["cfg_create", "cfg_create", "cfg_create", "cfg_sync"]), _picks())
+    edit = st.one_of(
+        st.sampled_from(FRESH_SPECS).map(lambda s: {"op": "edit", "what": "socks_append", "v": s}),
+        st.sampled_from(["relay1", "abc"]).map(lambda s: {"op": "edit", "what": "nickname", "v": s}),
+        st.sampled_from(["info file /tmp/x", "debug syslog"]).map(lambda s: {"op": "edit", "what": "log_append", "v": s}))
+    refused = st.sampled_from(REFUSED_SPECS).map(lambda s: {"op": "refused", "req": s})
+    foreign = st.builds(lambda ls, keep, win: {"op": "foreign", "lines": ls, "keep": keep, "window": win},
+                        sp.entry_lines(1, 2, allow_auto=False), st.booleans(),
+                        st.sampled_from(["idle", "save_in_flight", "save_in_flight"]))
+    overlap = st.builds(lambda a, b: {"op": "overlap", "picks": [a, b]}, _picks(), _picks())
+    save = st.just({"op": "save"})
+    by_kind = {"request": request, "edit": edit, "refused": refused, "foreign": foreign, "overlap": overlap,
+               "save": save}
+    kinds = st.sampled_from(["request"] * 7 + ["edit"] * 3 + ["refused", "foreign", "foreign", "overlap", "overlap",
+                                                              "save"])
+    return st.lists(kinds.flatmap(lambda k: by_kind[k]), min_size=1, max_size=6)
+
+
+@st.composite
+def session_cases(draw):
+    store = draw(sp.stores(multi_alt=False, defaults=True))
+    return {"store": store, "echo": draw(st.sampled_from([True, True, False])),
+            "boot": draw(st.sampled_from(["alone", "alone", "with_listener"])),
+            "steps": draw(_session_steps())}
+
+
+def _fixed_sessions():
+    tbb = "9150 IPv6Traffic PreferIPv6 KeepAliveIsolateSOCKSAuth"
+
+    def s(value, steps, default=None, boot="alone", echo=True):
+        store = {"value": value, "alt": []}
+        if default:
+            store["default"] = default
+        return {"store": store, "echo": echo, "boot": boot, "steps": steps}
+
+    def rq(pick, route="cfg_create"):
+        return {"op": "request", "route": route, "pick": pick}
+    present0 = {"kind": "present", "i": 0, "full": False}
+    fresh = {"kind": "spec", "spec": "9999"}
+    # a refused earlier request, then an existing port / a fresh one
+    yield s(["9050"], [{"op": "refused", "req": REFUSED_SPECS[0]}, rq(present0), rq(fresh), rq(present0)])
+    # unsaved edits by the application, then an existing port, then a fresh one
+    yield s(["9050 IsolateDestAddr"], [{"op": "edit", "what": "socks_append", "v": "1234"}, rq(present0), rq(fresh)])
+    yield s(["9050"], [{"op": "edit", "what": "nickname", "v": "relay1"}, rq(present0), rq({"kind": "none"}),
+                       rq(present0, "cfg_sync"), rq(fresh)])
+    # SocksPort left at a default that carries option words
+    yield s(None, [rq(fresh), rq(present0)], default=[tbb])
+    yield s(None, [rq(present0), rq({"kind": "none"}, "cfg_sync"), rq(fresh)], default=[tbb, "9155"])
+    # overlapping requests
+    yield s([tbb], [{"op": "overlap", "picks": [fresh, {"kind": "spec", "spec": "unix:/tmp/foo/socks"}]},
+                    rq({"kind": "present", "i": 2, "full": False})])
+    yield s(["9050"], [{"op": "overlap", "picks": [fresh, fresh]}, {"op": "overlap", "picks": [present0, fresh]}])
+    # another controller changes SocksPort (idle / while one of our saves is unanswered), then requests
+    for win in ("idle", "save_in_flight"):
+        yield s(["9050"], [{"op": "foreign", "lines": ["9150 IsolateDestAddr"], "keep": True, "window": win},
+                           rq({"kind": "present", "i": 1, "full": False}), rq(fresh)])
+        yield s(["9050", "9051"], [{"op": "foreign", "lines": [tbb], "keep": False, "window": win}, rq(fresh)],
+                boot="with_listener")
+    yield s(["9050"], [{"op": "foreign", "lines": ["9150"], "keep": True, "window": "idle"},
+                       rq({"kind": "present", "i": 1, "full": False})], boot="with_listener", echo=False)
+
+
+class _Session(object):
+    def __init__(self, case, res):
+        self.res = res
+        self.w = _World({"route": "cfg_create", "store": case["store"], "echo": case.get("echo"),
+                         "boot": case.get("boot", "alone")})
+        self.pending = {"add": [], "other": set(), "refused": []}
+        self.state_steps = 0        # steps so far that put the TorConfig/connection into a particular state
+        self.judged_after_state = 0
+        self.nick = 0
+
+    # -- helpers
+    def resolve(self, pick):
+        """-> (req, True) or (None, False) if the pick cannot be used against the store as it is now."""
+        lines = self.w.lines()
+        if pick["kind"] == "none":
+            return None, True
+        if pick["kind"] == "present":
+            musts = [e for e, _ in sp.listeners(lines) if e["cls"] == "must"]
+            if not musts:
+                return None, False
+            e = musts[pick["i"] % len(musts)]
+            return (e["line"] if pick.get("full") else e["addr"]), True
+        spec = pick["spec"]
+        want = sp.parse_entry(spec)
+        for p in self.pending["add"]:
+            pe = sp.parse_entry(p)
+            if pe["addr"] == want["addr"] or (pe["port"] is not None and pe["port"] == want["port"]) or \
+                    (pe["path"] is not None and pe["path"] == want["path"]):
+                return None, False      # names something the application appended but never saved: ambiguous
+        return spec, True
+
+    def after_setconfs(self, s0):
+        """Forget pending edits that an accepted SETCONF has carried to Tor."""
+        for rec in self.w.sim.setconfs[s0:]:
+            if not rec["accepted"] or rec["items"] is None:
+                continue
+            keys = {self.w.sim.canonical(k) for k, _ in rec["items"]}
+            vals = [v for _, v in rec["items"]]
+            self.pending["add"] = [p for p in self.pending["add"] if p not in vals]
+            self.pending["other"] -= keys
+
+    # -- steps
+    def do_request(self, step):
+        route = step["route"]
+        req, ok = self.resolve(step["pick"])
+        if not ok or (route == "cfg_sync" and req is not None and " " in req):
+            self.res.excluded.append("pick-not-applicable")
+            return True
+        s0 = len(self.w.sim.setconfs)
+        if self.state_steps:
+            self.judged_after_state += 1
+        good = _one_call(self.res, self.w, route, req, 1 if self.state_steps else 0, self.pending, "in-state:")
+        self.after_setconfs(s0)
+        return good
+
+    def do_refused(self, step):
+        res, w = self.res, self.w
+        req = step["req"]
+        lines0 = w.lines()
+        if any(req.split()[0] == ln.split()[0] for ln in lines0 + self.pending["add"] + self.pending["refused"]):
+            res.excluded.append("pick-not-applicable")
+            return True
+        s0 = len(w.sim.setconfs)
+        out = w.call("cfg_create", req)
+        recs = w.sim.setconfs[s0:]
+        res.label("step:refused-request")
+        if len(recs) != 1 or recs[0]["accepted"]:
+            res.bad("refusable-request-not-one-refused-setconf", "%r -> %r" % (req, [r["line"] for r in recs]))
+            return False
+        vals = [v for k, v in (recs[0]["items"] or []) if w.sim.canonical(k) in ("SocksPort", "__SocksPort")]
+        if req not in vals or _relist_match(lines0, [v for v in vals if v != req], self.pending["add"]) is None:
+            tag = "lone-auto-entry-missing-from-config-view" if lines0 == ["auto"] and "auto" not in vals else \
+                "relisted-entries-differ"
+            res.bad(tag, "Tor reported %r; refused SETCONF was %r" % (lines0, recs[0]["line"]))
+            return False
+        if out[0] == "ok":
+            res.bad("refused-request-reported-success", "Tor answered 553 to %r, caller got an endpoint for %r" % (
+                recs[0]["line"], out[1]))
+            return False
+        if w.lines() != lines0:
+            raise HarnessError("the reference store changed on a refused SETCONF")
+        self.pending["refused"].append(req)
+        self.state_steps += 1
+        return True
+
+    def do_edit(self, step):
+        cfg, what, v = self.w.cfg, step["what"], step["v"]
+        c0 = len(self.w.pipe.commands)
+        if what == "socks_append":
+            want = sp.parse_entry(v)
+            ports, paths = sp._used(self.w.lines() + self.pending["add"])
+            key = sp.listener_key(want)
+            if (key[0] == "unix" and key[1] in paths) or (key[0] == "tcp" and key[2] in ports):
+                self.res.excluded.append("pick-not-applicable")
+                return True
+            cfg.SocksPort.append(v)
+            self.pending["add"].append(v)
+        elif what == "nickname":
+            cfg.Nickname = v
+            self.pending["other"].add("Nickname")
+        elif what == "log_append":
+            cfg.Log.append(v)
+            self.pending["other"].add("Log")
+        else:
+            raise HarnessError("unknown edit %r" % (step,))
+        if self.w.pipe.commands[c0:]:
+            raise HarnessError("an unsaved edit wrote %r (C10's subject)" % (self.w.pipe.commands[c0:],))
+        self.res.label("step:unsaved-edit:" + what)
+        self.state_steps += 1
+        return True
+
+    def do_save(self, step):
+        s0 = len(self.w.sim.setconfs)
+        wd = Watch(self.w.cfg.save())
+        self.w.pipe.pump()
+        self.after_setconfs(s0)
+        self.res.label("step:application-save")
+        if wd.failed and not self.pending["refused"]:
+            self.res.bad("application-save-failed", repr(wd.outcome()))
+            return False
+        return not wd.failed
+
+    def do_foreign(self, step):
+        res, w = self.res, self.w
+        if self.pending["add"] or w.sim.get("SocksPort") is None and w.lines() != (w.sim.default("SocksPort") or []):
+            # unsaved SocksPort edits / a __SocksPort-based store: what the event should do is not stated
+            res.excluded.append("foreign-change-not-applicable")
+            return True
+        kept = w.lines() if step["keep"] else []
+        ports, paths = sp._used(kept)
+        new = list(kept)
+        for ln in step["lines"]:
+            k = sp.listener_key(sp.parse_entry(ln))
+            if k is None or (k[0] == "unix" and k[1] in paths) or (k[0] == "tcp" and k[2] in ports):
+                continue
+            new.append(ln)
+            (paths if k[0] == "unix" else ports).add(k[1] if k[0] == "unix" else k[2])
+        if not new or new == w.lines():
+            res.excluded.append("foreign-change-not-applicable")
+            return True
+        window = step["window"]
+        if window == "save_in_flight" and (self.pending["other"] or self.pending["refused"]):
+            window = "idle"
+        if window == "idle":
+            ev = w.foreign_set(new)
+            if ev:
+                w.pipe.inject(ev)
+        else:
+            # Tor applied the other controller's change and sent us the event before it read our SETCONF;
+            # we wrote that SETCONF before the event reached us
+            pipe = w.pipe
+            pipe.auto = False
+            pipe.produce(w.foreign_set(new))
+            self.nick += 1
+            w.cfg.Nickname = "n%d" % self.nick
+            s0 = len(w.sim.setconfs)
+            wd = Watch(w.cfg.save())
+            pipe.auto = True
+            pipe.pump()
+            recs = w.sim.setconfs[s0:]
+            if len(recs) != 1 or not recs[0]["accepted"] or not wd.succeeded or \
+                    {w.sim.canonical(k) for k, _ in recs[0]["items"]} != {"Nickname"}:
+                res.bad("application-save-of-another-option-went-wrong", "%r -> %r" % (
+                    [r["line"] for r in recs], wd.outcome()))
+                return False
+        if w.lines() != new:
+            raise HarnessError("foreign change did not take: %r vs %r" % (w.lines(), new))
+        if w.pipe.escaped:
+            res.bad("exception-escaped-dataReceived", repr(w.pipe.escaped[0]))
+            return False
+        res.label("step:foreign-change:" + window, "foreign-change:" + (
+            "announced" if "CONF_CHANGED" in w.subscribed else "not-subscribed"))
+        self.state_steps += 1
+        return True
+
+    def do_overlap(self, step):
+        """Two create_socks_endpoint() calls; Tor's answer to the first SETCONF is held back until the second
+        call has been made."""
+        res, w = self.res, self.w
+        reqs = []
+        for p in step["picks"]:
+            req, ok = self.resolve(p)
+            if not ok or req is None:
+                res.excluded.append("pick-not-applicable")
+                return True
+            reqs.append(req)
+        lines0 = w.lines()
+        ents = sp.listeners(lines0)
+        kinds = [_classify_request(r, ents, lines0) for r in reqs]
+        if any(k == "ambiguous" for k, _ in kinds):
+            res.excluded.append("ambiguous-request")
+            return True
+        needed = []
+        for r, (k, _) in zip(reqs, kinds):
+            if k == "absent":
+                if any(sp.parse_entry(n)["addr"] == sp.parse_entry(r)["addr"] for n in needed):
+                    if r not in needed:
+                        res.excluded.append("ambiguous-request")
+                        return True
+                else:
+                    needed.append(r)
+        if len(needed) == 2:
+            a, b = (sp.listener_key(sp.parse_entry(x)) for x in needed)
+            if a == b or (a[0] == "tcp" and b[0] == "tcp" and a[2] == b[2]):
+                res.excluded.append("ambiguous-request")
+                return True
+        pipe, r = w.pipe, w.reactor
+        app = Factory.forProtocol(_App)
+        s0, c0 = len(w.sim.setconfs), len(pipe.commands)
+        pipe.auto = False
+        watches = []
+        try:
+            for req in reqs:
+                watches.append(Watch(w.cfg.create_socks_endpoint(r, req)))
+                pipe.pump()         # Tor reads what was written; its answers stay in the pipe
+        finally:
+            pipe.auto = True
+        held = len(pipe.pending) > 0
+        pipe.pump()
+        if w.pipe.escaped:
+            res.bad("exception-escaped-dataReceived", repr(w.pipe.escaped[0]))
+            return False
+        res.label("step:overlap:%d-absent" % len(needed))
+        if held:
+            res.label("overlap:first-answer-was-held")
+        if self.state_steps:
+            self.judged_after_state += 1
+        self.state_steps += 1
+        recs = w.sim.setconfs[s0:]
+        befores = w.before[s0:]
+        changing = [c for c in pipe.commands[c0:] if c.split(" ")[0].upper() in CHANGING_VERBS]
+        if len(changing) != len(recs) or any(rc["verb"] != "SETCONF" for rc in recs):
+            res.bad("not-exactly-one-setconf", repr(changing))
+            return False
+        if not needed:
+            if recs:
+                res.bad("request-for-configured-port-flushes-pending-changes" if any(
+                    self.pending[k] for k in self.pending) else "setconf-although-configured-entry-satisfies-request",
+                    "Tor has %r, requests %r, yet %r" % (lines0, reqs, changing))
+                return False
+        elif not 1 <= len(recs) <= len(needed):
+            res.bad("overlapping-request-not-added" if not recs or len(recs) < 1 else "not-exactly-one-setconf",
+                    "Tor has %r, overlapping requests %r: SETCONFs %r" % (lines0, reqs, changing))
+            return False
+        for rec, before in zip(recs, befores):
+            vals = [v for k, v in (rec["items"] or []) if w.sim.canonical(k) in ("SocksPort", "__SocksPort")]
+            keys = {w.sim.canonical(k) for k, _ in (rec["items"] or [])}
+            if rec["items"] is None or not keys <= {"SocksPort", "__SocksPort"} | self.pending["other"]:
+                res.bad("setconf-touches-other-option", repr(rec["line"]))
+                return False
+            live = [e["line"] for e, _ in sp.listeners(before) if e["cls"] != "never"]
+            fresh = [n for n in needed if n not in before]
+            used = _relist_match(before, vals, fresh + self.pending["add"])
+            if used is None and live != before:
+                used = _relist_match(live, vals, fresh + self.pending["add"])
+            if used is None or not any(u in fresh for u in used):
+                detail = "Tor held %r; SETCONF decoded to %r; overlapping requests %r" % (before, vals, reqs)
+                stripped = [ln.split()[0] for ln in before]
+                if lines0 == ["auto"] and "auto" not in vals:
+                    res.bad("lone-auto-entry-missing-from-config-view", detail)
+                elif used is None and before and _relist_match(stripped, vals, fresh + self.pending["add"]) is not None \
+                        and stripped != before:
+                    res.bad("option-words-dropped-in-relisted-setconf", detail)
+                else:
+                    res.bad("relisted-entries-differ", detail)
+                return False
+            if not rec["accepted"]:
+                res.bad("reference-tor-refused-setconf", "%r -> %d" % (rec["line"], rec["code"]))
+                return False
+        carried = [p for p in self.pending["add"]
+                   if any(p in [v for _, v in rec["items"]] for rec in recs)]
+        self.after_setconfs(s0)
+        after = w.lines()
+        live0 = [e["line"] for e, _ in ents if e["cls"] != "never"]
+        if sorted(after) not in (sorted(lines0 + needed + carried), sorted(live0 + needed + carried)):
+            missing = [n for n in needed if n not in after]
+            res.bad("overlapping-request-not-added" if missing else "listener-lost-after-setconf",
+                    "Tor had %r, overlapping requests %r, SETCONFs %r, afterwards Tor holds %r" % (
+                        lines0, reqs, changing, after))
+            return False
+        for req, wd in zip(reqs, watches):
+            if not wd.succeeded:
+                res.bad("route-failed", "overlapping create_socks_endpoint(%r): %r" % (req, wd.outcome()))
+                return False
+            tcp0, unix0 = len(r.tcp_connects), len(r.unix_connects)
+            try:
+                Watch(wd.result.connect(app))
+            except Exception as e:
+                res.bad("route-failed", "endpoint for %r: connect raised %r" % (req, e))
+                return False
+            new = w.last_connect(tcp0, unix0)
+            want = sp.connect_targets(sp.listener_key(sp.parse_entry(req)))
+            if len(new) != 1 or new[0] not in want:
+                res.bad("requested-entry-not-targeted", "create_socks_endpoint(%r) connects to %r" % (req, new))
+                return False
+        if any(e["options"] for e, _ in ents) and needed:
+            res.nontrivial = True
+        return True
+
+
+def drive_session(case):
+    res = Result()
+    s = _Session(case, res)
+    ops = {"request": s.do_request, "refused": s.do_refused, "edit": s.do_edit, "foreign": s.do_foreign,
+           "overlap": s.do_overlap, "save": s.do_save}
+    if case.get("boot", "alone") != "alone":
+        res.label("boot:" + case["boot"])
+        s.state_steps += 1
+    for step in case["steps"]:
+        fn = ops.get(step["op"])
+        if fn is None:
+            raise HarnessError("unknown step %r" % (step,))
+        if not fn(step) or not res.ok:
+            break
+    if s.judged_after_state:
+        res.label("request-judged-in-a-particular-state")
+        res.nontrivial = True
     return res
 
 
@@ -632,7 +1167,7 @@ def all_two_step_cases():
 
 
 def _same_error(got, want):
-    return got is want or (type(got) is type(want) and got.args == want.args)
+    return got is want or (isinstance(got, type(want)) and got.args == want.args)
 
 
 def drive_fallback(case):
@@ -790,7 +1325,7 @@ def drive_fallback(case):
     return res
 
 
-DRIVERS = {"choose": drive_choose, "fallback": drive_fallback}
+DRIVERS = {"choose": drive_choose, "session": drive_session, "fallback": drive_fallback}
 
 MANIFEST = {
     "text": "Generated-input search (Hypothesis) plus fixed scenarios and an exhaustive enumeration of two-step "
@@ -806,6 +1341,11 @@ MANIFEST = {
             "without a SOCKS endpoint on a fake reactor with scripted connectTCP outcomes: attempts are loopback:9050 "
             "then loopback:9150, strictly one at a time, the next one only after a ConnectError, none after a "
             "SOCKS-level error / other exception / success, the final failure is the last attempt's error. "
+            "Part A2 applies the Part A oracle along generated TorConfig histories (refused earlier requests, unsaved "
+            "application edits, SocksPort at a config/defaults value with option words, another controller's "
+            "CONF_CHANGED while idle or while a SETCONF of ours is unanswered, two overlapping requests with held "
+            "replies, TorConfig bootstrapped together with another subscription), every SETCONF being compared with "
+            "the lines the reference Tor held when it read it. "
             "Finds counterexamples; does not prove absence.",
     "note": "Trusted: vlib/simconf.py (Tor's GETCONF/SETCONF semantics incl. the shared SocksPort/__SocksPort line "
             "list), vlib/socksport.py (reading of SocksPort lines per tor's manual), vlib/wire.py kvline decoder, "
@@ -819,15 +1359,16 @@ MANIFEST = {
 
 def run(ctx):
     ctx.enumerate("choose", _fixed_choose(), name="fixed-scenarios", exhaustive=False)
+    ctx.enumerate("session", _fixed_sessions(), name="fixed-sessions", exhaustive=False)
     ctx.enumerate("fallback", all_two_step_cases(), name="all-two-step-outcome-sequences")
     if not ctx.quick():
         ctx.enumerate("choose", grid_cases(), name="route-x-request-grid")
-    ctx.search("choose", choose_cases(), quick=2500, thorough=20000)
+    ctx.search("choose", choose_cases(), quick=1800, thorough=20000)
+    ctx.search("session", session_cases(), quick=800, thorough=8000)
     ctx.search("fallback", fallback_cases(), quick=500, thorough=5000)
 
 
-# Written against the tree with out/fixes/C18-*.diff applied (several entries undo part of a fix and match
-# nothing before); run with vlib.mutants.REPO pointing at a git-initialised patched copy.
+# Several entries undo part of a fix:C18 commit and match nothing in a tree without it.
 E, T = "txtorcon/endpoints.py", "txtorcon/torconfig.py"
 MUTANTS = [
     ("always-setconf", E,
@@ -883,4 +1424,31 @@ MUTANTS = [
      "            if last_error is not None:\n                return None"),
     ("report-the-first-error", E,
      "                    last_error = e0\n", "                    last_error = last_error or e0\n"),
+    # --- the state the TorConfig / connection is in when the port is chosen (driver "session")
+    ("config-create-always-saves", T,
+     "        return _endpoint_from_socksport_line(reactor, socks_config)\n\n    # FIXME should re-name",
+     "        yield self.save()\n        return _endpoint_from_socksport_line(reactor, socks_config)\n\n"
+     "    # FIXME should re-name"),
+    ("config-defaults-keep-first-word-only", T,
+     "                k, v = line.split(' ', 1)\n", "                k, v = line.split()[:2]\n"),
+    ("config-edit-ignored-while-a-save-is-unanswered", T,
+     "        if name in self.config and name not in self.unsaved:\n",
+     "        if name in self.config and name not in self.unsaved and not self._saves_in_flight:\n"),
+    ("config-conf-changed-dropped-while-a-save-is-unanswered", T,
+     "        conf = parse_keywords(arg, multiline_values=False)\n        for (k, v) in conf.items():",
+     "        if self._saves_in_flight:\n            return\n"
+     "        conf = parse_keywords(arg, multiline_values=False)\n        for (k, v) in conf.items():"),
+    ("config-conf-changed-for-socksport-ignored", T,
+     "        conf = parse_keywords(arg, multiline_values=False)\n        for (k, v) in conf.items():",
+     "        conf = parse_keywords(arg, multiline_values=False)\n        conf.pop('SocksPort', None)\n"
+     "        for (k, v) in conf.items():"),
+    ("subscription-counts-only-once-acknowledged", "txtorcon/torcontrolprotocol.py",
+     "            self.events[evt.name] = evt\n"
+     "            d = self.queue_command('SETEVENTS %s' % ' '.join(self.events.keys()))\n",
+     "            d = self.queue_command('SETEVENTS %s' % ' '.join(list(self.events.keys()) + [evt.name]))\n"
+     "            d.addCallback(lambda arg: (self.events.__setitem__(evt.name, evt), arg)[1])\n"),
+    # needs fixes/C18-refused-socks-port-rolled-back.diff in the tree (matches nothing before)
+    ("config-refused-port-stays-in-the-list", T,
+     "                    if socks_config in self.SocksPort:\n                        self.SocksPort.remove(socks_config)\n",
+     "                    if False:\n                        self.SocksPort.remove(socks_config)\n"),
 ]
